@@ -295,6 +295,9 @@ def defaults(ctx, pid):
     from ..model import UNKNOWN
     cm = ctx.P.modules.get("trie.constants")
     for q in DEFAULT_PROPS.get(pid, []):
+        if q == "trie.hexary:HexaryTrie._get_proof" and util.proof_walker(ctx)[1] == "gen":
+            ctx.ok("default:HexaryTrie._get_proof(last_proof)", util.proof_walker(ctx)[0].loc(), "the proof is collected by a generator: there is no accumulator parameter whose default could be shared", nontrivial=False)
+            continue
         f = ctx.P.func(q)
         ds = f.defaults()
         for pn, want in DEFAULTS[q].items():
@@ -441,6 +444,8 @@ def fwd(ctx, pid):
                         ctx.bad(cst, f.loc(c_), "`%s` is passed as `%s`, expected the caller's own `%s` unchanged" % (p, util.norm_src(a), p))
                     else:
                         ctx.ok(cst, f.loc(c_), "`%s` is passed on as `%s`" % (p, util.norm_src(a)), nontrivial=False)
+    if pid == "C03" and util.proof_walker(ctx)[1] == "gen":
+        n += 2  # the two accumulator parameters of _get_proof do not exist in the generator form
     if n < FWD_MIN[pid]:
         ctx.unsure("forward-instances:%s" % rel, rel, "only %d forwarding site(s) found, %d were confirmed by hand" % (n, FWD_MIN[pid]))
 
